@@ -85,6 +85,24 @@ func raw(args []string) int {
 	return 0
 }
 
-func check(args []string) int  { return 2 }
-func replay(args []string) int { return 2 }
-func setup(args []string) int  { return 0 }
+// setup pre-warms the Go build cache with the plain and -race instrumented
+// harness builds and runs the shim litmus suite once in each.
+func setup(args []string) int {
+	for _, race := range []bool{false, true} {
+		bin, cleanup, err := buildHarness(race, false)
+		if err != nil {
+			fmt.Fprintln(os.Stderr, err)
+			return 2
+		}
+		cmd := exec.Command(bin, "litmus")
+		cmd.Env = append(os.Environ(), "GORACE=halt_on_error=0 exitcode=0")
+		cmd.Stdout = os.Stdout
+		err = cmd.Run()
+		cleanup()
+		if err != nil {
+			fmt.Fprintln(os.Stderr, "litmus failed:", err)
+			return 2
+		}
+	}
+	return 0
+}
